@@ -2344,3 +2344,83 @@ Proof.
   apply andb_true_iff in H. destruct H as [H1 H2]. split; [|now apply IH].
   destruct o; auto. now apply build_in_scopeb_ok.
 Qed.
+
+(** * What did not change is not rebuilt *)
+
+Definition is_edit (o : op) : bool :=
+  match o with OSetSrc _ _ | OSetRules _ => true | _ => false end.
+
+Lemma run_edits_same edits : forall w,
+  forallb is_edit edits = true ->
+  w_out (run edits w) = w_out w /\ w_cache (run edits w) = w_cache w /\
+  w_clock (run edits w) = w_clock w.
+Proof.
+  induction edits as [|o edits IH]; intros w H; simpl in *; [auto|].
+  apply andb_true_iff in H. destruct H as [Ho Hr].
+  destruct (IH (step w o) Hr) as (A & B & C). rewrite A, B, C.
+  destruct o; simpl in *; try discriminate; auto.
+Qed.
+
+(** After a successful build, source and rule edits (outputs left alone),
+    and another successful build: a rule that was reachable before and whose
+    action digest is the same as before is not executed. *)
+Theorem unchanged_not_rebuilt ts w w1 e1 L edits ts2 w3 e3 L2 :
+  winv w -> build_in_scope ts w -> load_world w ts = LOk L -> build ts w = (w1, e1, BOk) ->
+  forallb is_edit edits = true ->
+  let w2 := run edits w1 in
+  build_in_scope ts2 w2 -> load_world w2 ts2 = LOk L2 -> build ts2 w2 = (w3, e3, BOk) ->
+  forall r F d F2,
+    reach_rule L ts r -> sdig L (w_rules w) (w_src w) F r = Some d ->
+    sdig L2 (w_rules w2) (w_src w2) F2 r = Some d ->
+    ~ In r e3.
+Proof.
+  intros Hw Hs Hl Hb Hed w2 Hs2 Hl2 Hb2 r F d F2 Hreach Hd Hd2 Hin.
+  pose proof (built_is_cached ts w w1 e1 L Hw Hs Hl Hb r F d Hreach Hd) as Hvalid.
+  destruct (run_edits_same edits w1 Hed) as (A & B & C). fold w2 in A, B, C.
+  assert (Hw1 : winv w1).
+  { pose proof (build_inv ts w Hw Hs) as H. now rewrite Hb in H. }
+  assert (Hw2 : winv w2).
+  { unfold winv. rewrite A, B, C. exact Hw1. }
+  apply (exec_iff ts2 w2 w3 e3 L2 Hw2 Hs2 Hl2 Hb2) in Hin.
+  destruct Hin as [_ (F' & d' & Hd' & Hnv)].
+  pose proof (sdig_unique _ _ _ _ _ _ _ _ Hd2 Hd') as <-.
+  apply Hnv. now rewrite A, B.
+Qed.
+
+Theorem unchanged_not_rebuilt_hist h rs src ts w1 e1 L edits ts2 w3 e3 L2 :
+  hist_in_scope h (empty_world rs src) ->
+  let w := run h (empty_world rs src) in
+  build_in_scope ts w -> load_world w ts = LOk L -> build ts w = (w1, e1, BOk) ->
+  forallb is_edit edits = true ->
+  let w2 := run edits w1 in
+  build_in_scope ts2 w2 -> load_world w2 ts2 = LOk L2 -> build ts2 w2 = (w3, e3, BOk) ->
+  forall r F d F2,
+    reach_rule L ts r -> sdig L (w_rules w) (w_src w) F r = Some d ->
+    sdig L2 (w_rules w2) (w_src w2) F2 r = Some d ->
+    ~ In r e3.
+Proof. intros Hh w. apply unchanged_not_rebuilt. now apply cache_valid_hist. Qed.
+
+(** The full "exactly the dependents are re-executed" claim for rules with an
+    output (file sets): after a successful build and source/rule edits, a
+    reachable file set is executed by the next build of the same targets iff
+    its action digest differs from the one it had.  The direction "same
+    digest => not executed" is [unchanged_not_rebuilt]; the converse needs
+    the additional invariant that a stamp is recorded under one digest only
+    and is not proved here (for bundles, which have no output, and for a rule
+    that was not a file set before, the converse is false: an old digest can
+    still be valid in the cache, and then skipping the rule is right). *)
+Definition stmt_minimal_rebuild : Prop :=
+  forall h rs src ts w1 e1 L edits w3 e3 L2,
+  hist_in_scope h (empty_world rs src) ->
+  let w := run h (empty_world rs src) in
+  build_in_scope ts w -> load_world w ts = LOk L -> build ts w = (w1, e1, BOk) ->
+  forallb is_edit edits = true ->
+  let w2 := run edits w1 in
+  build_in_scope ts w2 -> load_world w2 ts = LOk L2 -> build ts w2 = (w3, e3, BOk) ->
+  forall r rl0 fs0 ss0 is0 rl fs ss is' F d F2 d2,
+    reach_rule L ts r -> reach_rule L2 ts r ->
+    find_rule r (w_rules w) = Some rl0 -> r_kind rl0 = KFileSet fs0 ss0 is0 ->
+    find_rule r (w_rules w2) = Some rl -> r_kind rl = KFileSet fs ss is' ->
+    sdig L (w_rules w) (w_src w) F r = Some d ->
+    sdig L2 (w_rules w2) (w_src w2) F2 r = Some d2 ->
+    (In r e3 <-> d <> d2).
